@@ -279,6 +279,11 @@ def run(run, rng):
     run.assumptions = ['distribution claimed = conditional on a non-Markov structure being drawn (a Markov draw yields no word and the session draws again)',
                        'for un-normalised (edited) rulesets the reference distribution is the normalised one',
                        'at a breakpoint +-1 ulp either neighbouring region is accepted (float vs exact cumulative sums)']
+    if run.shard[0] == 1 % run.shard[1]:
+        # exactly N words also when almost every walk lands on the Markov structure (P(M) = 0.999) and has to be redrawn
+        from . import c09
+        run.ev('markov_heavy_cases')
+        run.guard(c09.markov_heavy_case(rng, 'quick'), c09.check_markov_heavy, seconds=600)
     if run.shard[0] == 0:
         for zc in trained.ZERO_KEYSPACE_CASES:
             run.ev('zero_keyspace_trainings')
